@@ -2,6 +2,8 @@
 
 package vsched
 
+import "unsafe"
+
 // parker is the hand-off primitive between managed goroutines and the driver.
 // Without the race detector a buffered channel is the fastest correct choice.
 type parker struct{ c chan struct{} }
@@ -17,3 +19,5 @@ const RaceEnabled = false
 func raceAcquire(addr any)      {}
 func raceRelease(addr any)      {}
 func raceReleaseMerge(addr any) {}
+
+func addrOfAny(a any) unsafe.Pointer { return (*[2]unsafe.Pointer)(unsafe.Pointer(&a))[1] }
